@@ -7,7 +7,7 @@ PATCH=$(realpath "$1"); PROP=$2; TIER=${3:-quick}
 WT=/tmp/mc-wt-$$; VF=/tmp/mc-vf-$$
 git -C /repo worktree add -q --detach "$WT" HEAD || exit 2
 ( cd "$WT" && git apply "$PATCH" ) || { git -C /repo worktree remove --force "$WT"; echo "patch does not apply"; exit 2; }
-mkdir -p "$VF" && rsync -a --exclude .git --exclude evidence/replays /verif/ "$VF"/
+mkdir -p "$VF" && rsync -a --exclude .git --exclude evidence/replays --exclude .scratch /verif/ "$VF"/
 ( cd "$VF" && SPYNE_REPO="$WT" ./check "$PROP" --tier "$TIER" 2>&1 | grep -v "^\[.*T1: regen" | tail -${MC_TAIL:-8}; )
 RC=$(cd "$VF" && SPYNE_REPO="$WT" true; echo)
 echo "--- first replay:"; ls "$VF"/evidence/replays 2>/dev/null | head -1 | while read f; do head -c 1500 "$VF/evidence/replays/$f"; echo; done
